@@ -14,7 +14,13 @@ except Exception:      # pragma: no cover
 def guarded_check(solver, timeout_ms):
     """solver.check() with a hard wall-clock guard: z3's own timeout is not always honoured
     by the sequence solver, so a watchdog interrupts the context"""
-    t = threading.Timer(timeout_ms / 1000.0 + 1.0, solver.ctx.interrupt)
+    done = []
+
+    def fire():
+        if not done:
+            solver.ctx.interrupt()
+
+    t = threading.Timer(timeout_ms / 1000.0 + 1.0, fire)
     t.daemon = True
     t.start()
     try:
@@ -22,6 +28,7 @@ def guarded_check(solver, timeout_ms):
     except z3.Z3Exception:
         return z3.unknown
     finally:
+        done.append(1)
         t.cancel()
 
 
@@ -88,15 +95,27 @@ class Ctx:
             return
         self.solver.add(z)
 
+    def _rebuild_solver(self):
+        """after a z3 exception (a late watchdog interrupt, an internal limit) the incremental solver
+        may be unusable: start a fresh one with the same path condition"""
+        self.solver = z3.Solver()
+        self.solver.set("timeout", self.branch_timeout_ms)
+        for p in self.pc:
+            self.solver.add(p)
+
     def _feasible(self, cond):
         if not self.check_feasibility:
             return True
-        self.solver.push()
         try:
-            self.solver.add(cond)
-            r = guarded_check(self.solver, self.branch_timeout_ms)
-        finally:
-            self.solver.pop()
+            self.solver.push()
+            try:
+                self.solver.add(cond)
+                r = guarded_check(self.solver, self.branch_timeout_ms)
+            finally:
+                self.solver.pop()
+        except z3.Z3Exception:
+            self._rebuild_solver()
+            return True          # undecided: keep the branch (sound)
         return r != z3.unsat
 
     # -- choices
